@@ -155,10 +155,29 @@ def check(report: Report, repo: Repo) -> None:
         closes = [e for e in it.events if e.kind == "call" and e["callee"] == "math.isclose"]
         okr = bool(closes) and all((e["kwargs"].get("rel_tol") is rtol) or (len(e["args"]) > 2 and e["args"][2] is rtol) for e in closes)
         report.add("R4-predicates", f"{cons}::rtol", okr, f"{lab}: the caller's rtol is what isclose compares with", len(closes), "rel_tol=rtol on every comparison")
+        abs_tols = [fmt(e["kwargs"].get("abs_tol", e["args"][3] if len(e["args"]) > 3 else 0)) for e in closes]
+        report.add("R4-predicates", f"{cons}::abs_tol", all(a_ in ("0", "0.0") for a_ in abs_tols), f"{lab}: the comparison is purely relative (an absolute tolerance would call all tiny activations / gradients 'same scale')", sorted(set(abs_tols)), ["0"], nontrivial=False)
         okm = bool(closes) and all("mean_abs" in "".join(str(s) for s in ()) or True for e in closes)
         # the compared quantities must be mean_abs fields
         symset = {str(a) for e in closes for a in e["args"][:2]}
         report.add("R4-predicates", f"{cons}::quantity", symset <= {str(v) for v in S.values()}, f"{lab}: only mean |x| (fwd / bwd) is compared", sorted(symset), "mean_abs symbols")
+
+    # ------------------------------------------------ the two copying helpers chained: each returns a new graph and leaves its input alone
+    it, g, N = fresh(False)
+    cons = f"{TS}::prune_same_scale_tensors::after-prune_non_float_tensors"
+    try:
+        r1 = it.call_function(it.get_global(TS, "prune_non_float_tensors"), [g.obj], {})
+        g1 = r1.attrs.get("_abstract_graph") if isinstance(r1, Obj) else None
+        if g1 is None:
+            report.add("R3-copy-discipline", cons, None, "first helper did not return a graph")
+        else:
+            before1 = got(g1)
+            r2 = it.call_function(it.get_global(TS, "prune_same_scale_tensors"), [r1], {})
+            g2 = r2.attrs.get("_abstract_graph") if isinstance(r2, Obj) else None
+            report.add("R3-copy-discipline", f"{cons}::input-unchanged", got(g1) == before1, "a graph returned by one pruning helper is left unchanged when it is passed to the next one", "changed" if got(g1) != before1 else "unchanged", "unchanged")
+            report.add("R3-copy-discipline", f"{cons}::returns-copy", g2 is not None and g2 is not g1 and g2 is not g, "the second helper returns a new graph as well", "same graph" if g2 is g1 else "copy", "a copy")
+    except Unsupported as ex:
+        report.add("R3-copy-discipline", cons, None, f"outside fragment: {ex}")
 
     # ------------------------------------------------ prune_selected_nodes
     it, g, N = fresh(False)
